@@ -142,6 +142,18 @@ def offsets_oracle(ctx):
         if b.value != want:
             return Failure("C14/rawcopy/build-offsets", "while building, offset1/offset2/length/data were observed as %s, expected %s | spec=%s value=%s" % (
                 b.value[len(pre) + n:].hex(), want[len(pre) + n:].hex(), short(spec, 400), short(value)))
+        # the whole observing struct inside an OUTER RawCopy that does not start at offset 0, built from value: positions reported
+        # by the inner RawCopy (and by Tell) stay absolute offsets of the one real stream
+        base = 2
+        outer = C.Struct("lead" / C.Bytes(base), "outer" / C.RawCopy(C.Struct(*con.subcons, "t" / C.Tell, "tb" / C.Rebuild(C.Int16ub, this.t))))
+        ob = call(outer.build, dict(lead=b"LL", outer=dict(value=dict(obj, t=None, tb=None))), **params)
+        pos_t = base + len(want)
+        want2 = (b"LL" + pre + ib.value + (base + len(pre)).to_bytes(2, "big") + (base + len(pre) + n).to_bytes(2, "big") + n.to_bytes(2, "big") + ib.value +
+                 pos_t.to_bytes(2, "big"))
+        ctx.record([case, "outer-rawcopy"], True, ["offsets/inside-outer-rawcopy"])
+        if not ob.ok or ob.value != want2:
+            return Failure("C14/rawcopy/build-offsets-nested", "observing struct built from value inside an outer RawCopy at offset %d: built %r, expected %s | spec=%s value=%s" % (
+                base, ob, want2.hex(), short(spec, 400), short(value)))
         # a record PARSED somewhere else and re-used for building: what is reported describes this build, not the old parse
         shifted = C.Struct("junk" / C.Bytes(len(pre) + 2), "rc" / C.RawCopy(inner))
         ps = call(shifted.parse, b"zz" + pre + ib.value, **params)
